@@ -49,7 +49,13 @@ def timed_run(v, params, kind, delivery, tk=None):
 
 def check_latency(ctx, v, params, kind, origin):
     min_len, max_len, max_sil = params[0], params[1], params[2]
-    case = T.case_of(v, params, kind, "generator")
+    import numpy as _np
+
+    # how the caller spells generator=True: the literal, 1, or what numpy comparisons give
+    gi = (len(v) * 3 + params[1] + params[0]) % 4
+    tok.GEN_FLAG[0] = (True, 1, _np.True_, _np.int8(1))[gi]
+    ctx.count("generator_flag_spelled_" + ("True", "1", "numpy.True_", "numpy.int8(1)")[gi])
+    case = T.case_of(v, params, kind, "generator" + ("", "|gen=1", "|gen=np", "|gen=int8")[gi])
     n = len(v)
     seqs = {}
     shared = None
@@ -61,7 +67,10 @@ def check_latency(ctx, v, params, kind, origin):
     if shared is not None and len(v) >= 3 and (len(v) + params[1]) % 3 == 0:
         # an earlier, abandoned generator of the same tokenizer is still around; it gets finalised in the middle of a later run
         fr0, _ = tok.FRAME_KINDS[kind](v[: max(2, len(v) // 2)] + (1,) * params[1])
-        stale = shared.tokenize(tok.CountingSource(fr0), generator=True)
+        stale = shared.tokenize(tok.CountingSource(fr0), generator=tok.GEN_FLAG[0])
+        if not hasattr(stale, "__next__"):
+            ctx.violation("generator-mode-returns-a-list", {"case": case, "flag": repr(tok.GEN_FLAG[0]), "returned": type(stale).__name__})
+            return None
         try:
             next(stale)
         except StopIteration:
@@ -72,7 +81,10 @@ def check_latency(ctx, v, params, kind, origin):
         # the generator-mode run is requested first, the other modes run to completion, and only then is it consumed
         frames_g, _ = tok.FRAME_KINDS[kind](v)
         src_g = tok.CountingSource(frames_g)
-        pre = (shared.tokenize(src_g, generator=True), src_g)
+        pre = (shared.tokenize(src_g, generator=tok.GEN_FLAG[0]), src_g)
+        if not hasattr(pre[0], "__next__"):
+            ctx.violation("generator-mode-returns-a-list", {"case": case, "flag": repr(tok.GEN_FLAG[0]), "returned": type(pre[0]).__name__})
+            return None
         order = ("callback", "list", "generator")
         ctx.count("cases_generator_requested_before_the_other_modes_ran")
     for delivery in order:
